@@ -34,7 +34,10 @@ EXC = {"custom": Boom19, "KeyError": KeyError, "ValueError": ValueError, "TypeEr
        "ZeroDivisionError": ZeroDivisionError, "LookupError": LookupError, "IndexError": IndexError,
        # next() on an exhausted iterator inside a converter: an ordinary failure of that cell, never the end of a row or table
        "StopIteration": StopIteration}
-OPS = ["convert", "convert-multi", "convert-chain", "convertall", "fieldmap", "rowmap", "rowmapmany"]
+OPS = ["convert", "convert-multi", "convert-chain", "convertall", "fieldmap", "rowmap", "rowmapmany",
+       # the convenience forms hand failonerror / errorvalue on to convert
+       "format", "interpolate", "formatall", "interpolateall"]
+FORMS = {"format": ("{:d}", ValueError), "formatall": ("{:d}", ValueError), "interpolate": ("%d", TypeError), "interpolateall": ("%d", TypeError)}
 
 
 @st.composite
@@ -57,9 +60,9 @@ def case(draw, tier):
     cells = [(r, f) for r in range(n) for f in range(nf)]
     if op == "convert-chain" and nf < 2:
         op = c["op"] = "convert-multi"
-    if op in ("convert", "convert-multi", "convert-chain", "convertall", "fieldmap"):
+    if op in ("convert", "convert-multi", "convert-chain", "convertall", "fieldmap") or op in FORMS:
         c["failing"] = [list(x) for x in draw(st.lists(st.sampled_from(cells), unique=True, max_size=len(cells)))] if cells else []
-        c["fields"] = sorted(draw(st.lists(st.integers(0, nf - 1), min_size=1, max_size=nf, unique=True))) if op != "convert" else [draw(st.integers(0, nf - 1))]
+        c["fields"] = sorted(draw(st.lists(st.integers(0, nf - 1), min_size=1, max_size=nf, unique=True))) if op not in ("convert", "format", "interpolate") else [draw(st.integers(0, nf - 1))]
     elif op == "rowmap":
         c["failing"] = sorted(draw(st.lists(st.integers(0, n - 1), unique=True, max_size=n))) if n else []
     else:
@@ -72,8 +75,11 @@ def _tok(r, f):
     return "r%dc%d" % (r, f)
 
 
+_LOOSE = {"on": False}   # format()/interpolate() raise Python's own ValueError / TypeError: only the type can be matched
+
+
 def _same_exc(e, cls, token):
-    return type(e) is cls and e.args[:1] == (token,)
+    return type(e) is cls and (_LOOSE["on"] or e.args[:1] == (token,))
 
 
 def _surfaced(e, cls, token):
@@ -110,10 +116,13 @@ def check(case, ctx):
         other = {False: True, True: "inline", "inline": False}[policy]
         # via config: the default is the policy; via argument: the default says something else and must lose
         cfg.failonerror = policy if case["via_config"] else other
-        cellops = op in ("convert", "convert-multi", "convert-chain", "convertall", "fieldmap")
+        cellops = op in ("convert", "convert-multi", "convert-chain", "convertall", "fieldmap") or op in FORMS
+        _LOOSE["on"] = op in FORMS
+        if op in FORMS:
+            cls = FORMS[op][1]
         if cellops:
             failing = set(_tok(r, f) for r, f in case["failing"])
-            fields = list(range(nf)) if op == "convertall" else case["fields"]
+            fields = list(range(nf)) if op in ("convertall", "formatall", "interpolateall") else case["fields"]
             failing = set(t for t in failing if int(t.split("c")[1]) in fields)
             ctx.nontrivial(0 < len(failing) < n * len(fields))
 
@@ -125,7 +134,15 @@ def check(case, ctx):
                     raise cls(v)
                 return ("ok", v)
             chain_ev = {}
-            if op == "convert-chain":
+            okval = lambda r, f: ("ok", _tok(r, f))  # noqa
+            if op in FORMS:
+                fmt = FORMS[op][0]
+                # a failing cell holds text (the format code wants a number), every other cell of the formatted fields an int
+                tbl = [hdr] + [[(_tok(r, f) if (f not in fields or _tok(r, f) in failing) else 1000 * r + f) for f in range(nf)] for r in range(n)]
+                okval = lambda r, f: str(1000 * r + f)  # noqa
+                fn = getattr(etl, op)
+                view = fn(tbl, fmt, errorvalue=errorvalue, **kw) if op.endswith("all") else fn(tbl, hdr[fields[0]], fmt, errorvalue=errorvalue, **kw)
+            elif op == "convert-chain":
                 # convert(convert(t, f0, errorvalue=X), f1, errorvalue=Y): two views, each with its own errorvalue
                 fields = fields[:2] if len(fields) >= 2 else [0, 1]
                 failing = set(t for t in failing if int(t.split("c")[1]) in fields)
@@ -185,7 +202,7 @@ def check(case, ctx):
                             break
                         cells.append(("EXC", t) if policy == "inline" else ("VAL", chain_ev.get(f, errorvalue)))
                     elif f in fields:
-                        cells.append(("VAL", ("ok", t)))
+                        cells.append(("VAL", okval(r, f)))
                     else:
                         cells.append(("VAL", t))
                 if stop:
